@@ -7,8 +7,10 @@ REG = {}
 EXTRA = {}
 
 
-def job(h, secs=60, jobs=1, allow=(), paths=1000000, qto=None, xproc=0, probe=False, **p):
+def job(h, secs=60, jobs=1, allow=(), paths=1000000, qto=None, xproc=0, probe=False, obs_reltol=None, **p):
     d = dict(h=h, p=p, secs=secs, jobs=jobs, allow=list(allow), paths=paths)
+    if obs_reltol:
+        d["obs_reltol"] = obs_reltol
     if xproc:
         d["xproc"] = xproc
     if probe:
